@@ -235,26 +235,75 @@ func verbatimUnclosedDelimiterFamily(r *Run, run func(src string, env map[string
 
 // verbatimNeighbourHyphenFamily: C05's "a string value printed by an object is emitted exactly" and "the body of a raw
 // block is emitted exactly as written" next to a NEIGHBOUR's hyphen. The white space at the edge of a value or of a raw
-// body is not literal text of the template: the hyphen of the tag before or after it has nothing to strip there. The
-// trim writer works on the output stream, not on the template, and strips it all the same: a genuine deviation, recorded
-// in known_findings.json under these two clauses (K-C05-value-trimmed-by-neighbour-hyphen, K-C05-raw-trimmed-by-
-// neighbour-hyphen) until it is repaired. A control group (the object's OWN hyphens, literal text between) must pass.
+// body is not literal text of the template: the hyphen of the tag before or after it has nothing to strip there. Until the
+// repair fixes/verbatim-output-not-trimmed the trim writer, which works on the output stream, stripped it all the same
+// (K-C05-value-trimmed-by-neighbour-hyphen, K-C05-raw-trimmed-by-neighbour-hyphen in known_findings.json, now `fixed`;
+// on a tree without the repair a failure is still classified under these two clauses). Every shape must pass: neighbours
+// of every kind (object, assign, if/unless/case clauses, for/tablerow bodies, capture bodies, comment, cycle, a loop's
+// break), values of every printable kind with white space at both edges (string, []byte, drop, pointer, arrays = several
+// Write calls, nested arrays, empty strings and nil inside an array), empty values, and a control group (the object's OWN
+// hyphens, literal text between hyphen and value).
 func verbatimNeighbourHyphenFamily(r *Run, run func(src string, env map[string]*V, kind string) (string, string), out func(string) (string, bool)) {
-	env := map[string]*V{"x": VStr("X"), "s": VStr("  s \n"), "b": VBytes(" b "), "d": VDrop(VStr("\td\t")), "e": VStr("")}
+	env := map[string]*V{"x": VStr("X"), "s": VStr("  s \n"), "b": VBytes(" b "), "d": VDrop(VStr("\td\t")), "e": VStr(""),
+		"p": VPtr(VStr(" p ")), "arr": VAnys(VStr(" a "), VStr("\tb\n")), "nest": VAnys(VAnys(VStr("  n")), VStr("m  ")),
+		"holes": VAnys(VStr(""), VNil(), VStr(" h "), VStr("")), "ws": VStr(" \n\t "), "nbsp": VStr("\u00a0u\u2003"),
+		"strs": VSlice(TStr, VStr(" 1 "), VStr(" 2 ")), "n": VNil()}
+	const val, raw = "string-value-printed-exactly:neighbour-hyphen", "raw-body-emitted-exactly:neighbour-hyphen"
 	for _, c := range []struct{ src, want, clause string }{
-		{"{{ x -}}{{ s }}|", "X  s \n|", "string-value-printed-exactly:neighbour-hyphen"},
-		{"|{{ s }}{{- x }}", "|  s \nX", "string-value-printed-exactly:neighbour-hyphen"},
-		{"{% if true -%}{{ b }}{%- endif %}|", " b |", "string-value-printed-exactly:neighbour-hyphen"},
-		{"{% assign q = 1 -%}{{ d }}{%- assign q = 2 %}|", "\td\t|", "string-value-printed-exactly:neighbour-hyphen"},
-		{"{{ x -}}{{ e }}{{ s }}|", "X  s \n|", "string-value-printed-exactly:neighbour-hyphen"},
-		{"{{ x -}}{% raw %}  y {% endraw %}|", "X  y |", "raw-body-emitted-exactly:neighbour-hyphen"},
-		{"|{% raw %} y  {% endraw %}{{- x }}", "| y  X", "raw-body-emitted-exactly:neighbour-hyphen"},
-		{"{% if true -%}{% raw %}\n y{% endraw %}{% endif %}|", "\n y|", "raw-body-emitted-exactly:neighbour-hyphen"},
+		{"{{ x -}}{{ s }}|", "X  s \n|", val},
+		{"|{{ s }}{{- x }}", "|  s \nX", val},
+		{"{% if true -%}{{ b }}{%- endif %}|", " b |", val},
+		{"{% assign q = 1 -%}{{ d }}{%- assign q = 2 %}|", "\td\t|", val},
+		{"{{ x -}}{{ e }}{{ s }}|", "X  s \n|", val},
+		{"{{ x -}}{% raw %}  y {% endraw %}|", "X  y |", raw},
+		{"|{% raw %} y  {% endraw %}{{- x }}", "| y  X", raw},
+		{"{% if true -%}{% raw %}\n y{% endraw %}{% endif %}|", "\n y|", raw},
+		// neighbours of every kind
+		{"{% unless false -%}{{ s }}{%- endunless %}|", "  s \n|", val},
+		{"{% if false %}{% else -%}{{ s }}{%- endif %}|", "  s \n|", val},
+		{"{% if false %}{% elsif true -%}{{ s }}{%- else %}{% endif %}|", "  s \n|", val},
+		{"{% case 1 %}{% when 1 -%}{{ s }}{%- when 2 %}{% endcase %}|", "  s \n|", val},
+		{"{% case 3 %}{% when 1 %}{% else -%}{{ b }}{%- endcase %}|", " b |", val},
+		{"{% for i in (1..2) -%}{{ s }}{%- endfor %}|", "  s \n  s \n|", val},
+		{"{% for i in (1..2) %}{{ s }}{%- break %}{% endfor %}|", "  s \n|", val},
+		{"{% for i in (1..2) %}{%- continue -%}{% endfor -%}{{ s }}|", "  s \n|", val},
+		{"{% for i in n %}{% else -%}{{ s }}{%- endfor %}|", "  s \n|", val},
+		{"{% comment %} c {% endcomment -%}{{ s }}{%- comment %}{% endcomment %}|", "  s \n|", val},
+		{"{% capture c -%}{{ s }}{%- endcapture %}[{{ c }}]", "[  s \n]", val},
+		{"{% capture c %}{{ x -}}{{ s }}{{- x }}{% endcapture %}[{{ c }}]", "[X  s \nX]", val},
+		{"{% capture c %} c {% endcapture -%}{{ c }}{%- assign q = 1 %}|", " c |", val},
+		{"{% capture c %}{{ s }}{% endcapture %}{{ x -}}{{ c }}{{- x }}", "X  s \nX", val},
+		{"{% for i in (1..1) %}{% cycle 'a', 'b' -%}{{ s }}{%- cycle 'a', 'b' %}{% endfor %}|", "a  s \nb|", val},
+		{"{% tablerow i in (1..1) -%}{{ s }}{%- endtablerow %}|", "<tr class=\"row1\"><td class=\"col1\">  s \n</td></tr>|", val},
+		{"{% for i in (1..2) -%}{% raw %} r {% endraw %}{%- endfor %}|", " r  r |", raw},
+		{"{% capture c -%}{% raw %} r {% endraw %}{%- endcapture %}[{{ c }}]", "[ r ]", raw},
+		{"{% assign q = 1 -%}{% raw %}\t{{- q -}}\t{% endraw %}{%- assign q = 2 %}|", "\t{{- q -}}\t|", raw},
+		{"{% raw %} a {% endraw -%}{% raw %} b {% endraw %}|", " a  b |", raw},
+		{"{% raw %} a {% endraw %}{%- raw %} b {% endraw %}|", " a  b |", raw},
+		// values of every printable kind, white space at both edges, between two hyphens of the neighbours
+		{"{{ x -}}{{ b }}{{- x }}", "X b X", val},
+		{"{{ x -}}{{ d }}{{- x }}", "X\td\tX", val},
+		{"{{ x -}}{{ p }}{{- x }}", "X p X", val},
+		{"{{ x -}}{{ arr }}{{- x }}", "X a \tb\nX", val},
+		{"{{ x -}}{{ nest }}{{- x }}", "X  nm  X", val},
+		{"{{ x -}}{{ holes }}{{- x }}", "X h X", val},
+		{"{{ x -}}{{ strs }}{{- x }}", "X 1  2 X", val},
+		{"{{ x -}}{{ ws }}{{- x }}", "X \n\t X", val},
+		{"{{ x -}}{{ nbsp }}{{- x }}", "X\u00a0u\u2003X", val},
+		{"{{ x -}}{{ s | append: '  ' }}{{- x }}", "X  s \n  X", val},
+		{"{{ x -}}{{ '  lit ' }}{{- x }}", "X  lit X", val},
+		{"{{ x -}}{{ arr | join: ' ' }}{{- x }}", "X a  \tb\nX", val},
+		// empty values and nil: nothing to protect, and the value after them is still out of reach
+		{"{{ x -}}{{ e }}{{- x }}|", "XX|", val},
+		{"{{ x -}}{{ n }}{{ s }}{{ n }}{{- x }}|", "X  s \nX|", val},
+		{"{{ s }}{{ e }}{{- x }}|", "  s \nX|", val},
 		// controls: the object's own hyphens strip the literal text around it, never its value; literal text between a hyphen and a value takes the trim
 		{"[ {{- s -}} ]", "[  s \n]", "string-value-printed-exactly"},
 		{"{{ x -}} a{{ s }}|", "Xa  s \n|", "string-value-printed-exactly"},
 		{"|{{ s }}a {{- x }}", "|  s \naX", "string-value-printed-exactly"},
 		{"[ {%- raw %} y {% endraw -%} ]", "[ y ]", "raw-body-emitted-exactly"},
+		{"[ {{- arr -}} ]", "[ a \tb\n]", "string-value-printed-exactly"},
+		{"{{ s }} {{- x -}} {{ s }}", "  s \nX  s \n", "string-value-printed-exactly"},
 	} {
 		res, cl := run(c.src, env, "neighbour-hyphen")
 		if o, ok := out(res); !ok || o != c.want {
